@@ -63,7 +63,7 @@ c = dc.Cache(req['path'], disk=disk)
 out = {'settings': {k: getattr(c, k, '<attribute missing>') for k in list(dc.DEFAULT_SETTINGS) + req.get('extra_settings', [])}}
 op = req['op']
 if op[0] == 'set':
-    out['result'] = c.set(op[1], req['value'])
+    out['result'] = c.set(op[1], req['value'], tag=req.get('tag'))
 elif op[0] == 'get':
     out['result'] = c.get(op[1], 'DFLT')
 elif op[0] == 'delete':
@@ -286,6 +286,9 @@ class EventRunner(Runner):
         elif name == 'touch':
             m.touch(op[1], op[2], t0, t1)
         elif name in ('incr', 'decr'):
+            old = m.items.get(ident(op[1]))
+            if old is not None and m.live(old, t0, t1) and type(old.value) not in (int, float):
+                return t0, t1  # the interpreter skips increments of non-numbers (outside the documented domain)
             try:
                 m.incr(op[1], op[2] if name == 'incr' else -op[2], op[3], t0, t1)
             except KeyError:
@@ -310,7 +313,7 @@ class EventRunner(Runner):
         from ..cacheops import is_filey, mkval
 
         self.trace.append(op)
-        req = {'path': self.path, 'disk': self.disk_name, 'op': list(op[:2]), 'value': mkval(op[2]) if op[0] == 'set' else None, 'extra_settings': [k for k in self.creation if k.startswith('disk_compress')]}
+        req = {'path': self.path, 'disk': self.disk_name, 'op': list(op[:2]), 'value': mkval(op[2]) if op[0] == 'set' else None, 'extra_settings': [k for k in self.creation if k.startswith('disk_compress')], 'tag': op[4] if op[0] == 'set' else None}
         env = dict(os.environ, PYTHONDONTWRITEBYTECODE='1')
         p = subprocess.run([sys.executable, '-c', CHILD % {'verif': common.VERIF}], input=json.dumps(enc(req)), capture_output=True, text=True, env=env, timeout=120)
         if p.returncode != 0:
